@@ -3,13 +3,13 @@
 package b
 
 import (
-	"time"
 	"bufio"
 	"encoding/json"
 	"fmt"
 	"net"
 	"net/http"
 	"strings"
+	"time"
 
 	"verif/a"
 	"verif/gqlref"
